@@ -194,6 +194,6 @@ def run(ctx):
 
 
 def replay(ctx, case):
-    if case.get('part') == 'csvwarn':
+    if case.get('part') in ('csvwarn', 'csvcolor'):
         return c14w.replay(ctx, case, THEOREM)
     ec.replay(ctx, case, THEOREM, rel=rel)
